@@ -7,7 +7,7 @@
    `gate_delay < 0`, max() (keeps the first maximal element: `if x > m: m = x`)
    and `==`.  These are the parameters dzero, dadd, dneg, dleb, deqb. *)
 From PyRTL Require Export Analysis.Timing.
-From Coq Require Import Floats.
+From Coq Require Import PrimFloat SpecFloat FloatOps Uint63.
 
 Section Ord.
 Variable D : Type.
